@@ -215,7 +215,10 @@ class ListTree:
         """
         canonical, canonical_i = self._get_pattern(ref_name + filter_)
         for entry in self.list():
-            if entry.name == 'INBOX':
+            if not entry.exists and entry.name != 'INBOX' \
+                    and entry.name.upper() == 'INBOX':
+                continue  # a spelling of INBOX, which is listed by itself
+            elif entry.name == 'INBOX':
                 if canonical_i.match('INBOX'):
                     yield entry
             elif canonical.match(entry.name):
